@@ -90,6 +90,33 @@ def writer_functions(prog):
     return out
 
 
+def flushers(prog):
+    """local functions that always flush before returning normally (every path from entry to a normal return passes
+    flush()/shutdown() or a call to another such function): calling one of them is as good as flushing.  Least fixpoint."""
+    cached = getattr(prog, "_flushers", None)
+    if cached is not None:
+        return cached
+    fl = set()
+    cands = [f for f in prog.fns.values() if f.crate == "redproxy_rs" and f.kind in ("Fn", "AssocFn")]
+    for _ in range(3):
+        changed = False
+        for f in cands:
+            if f.key in fl:
+                continue
+            b = prog.body_of(f)
+            pts = [c.bb for c in b.calls if FLUSH_FNS.match(c.path or "") or (c.local_key() in fl)]
+            if not pts:
+                continue
+            resid = [c.bb for c in b.calls if RESIDUAL.search(c.path or "")]
+            if not (b.reach_from([0], avoid=set(pts) | set(resid)) & set(b.returns())):
+                fl.add(f.key)
+                changed = True
+        if not changed:
+            break
+    prog._flushers = fl
+    return fl
+
+
 def f1_check(prog, f, extra_writers=()):
     """every path from a buffered write to a normal exit passes flush()/shutdown().
     Returns (ok, detail, kind) kind in {'flushes','partial','fails'}"""
@@ -99,7 +126,8 @@ def f1_check(prog, f, extra_writers=()):
         lk = c.local_key()
         if lk in extra_writers:
             ws.append(c)
-    fl = [c.bb for c in f.calls if FLUSH_FNS.match(c.path or "")]
+    fls = flushers(prog)
+    fl = [c.bb for c in f.calls if FLUSH_FNS.match(c.path or "") or (c.local_key() in fls)]
     resid = [c.bb for c in f.calls if RESIDUAL.search(c.path or "")]
     exits = set(f.returns()) | set(c.bb for c in f.calls if RECV_FNS.match(c.path or ""))
     bad = []
